@@ -28,7 +28,17 @@ CONF = dict(
           'sendmsg, so the listener cannot read their kernel transmit timestamp in time and the stamp arrives late. Observed besides the datagrams: the harness\'s clock reading after each reply and the '
           'listener\'s own "failed to read packet tx timestamp" reports, attributed to exchanges by time. Oracle: the listener oracle plus - an exchange reported unread is never served; a served transmit '
           'stamp is not earlier than the transmit field of the earlier BASIC reply it belongs to and not later than the moment the client had that reply. Non-trivial = an interleaved reply after an '
-          'unread stamp on that socket. Skipped with a NOTE (no floor) where unshare/tc are not permitted; distinct = distinct (kind, input)'),
+          'unread stamp on that socket. Skipped with a NOTE (no floor) where unshare/tc are not permitted. '
+          'lsn.hist also: NTS-authenticated requests (real cookies of the listeners\' key provider), SCMP echo requests through the same SCION listener loop, 4 addresses x 6 ports; the CLIENT sockets '
+          'take kernel receive timestamps, so the client\'s receipt of every reply is known; the listeners\' "failed to read packet tx timestamp" reports are collected (unexplained basic replies are '
+          'tolerated only up to the number of such reports); after every history the keys of the store are compared with the ids of the clients that were answered. '
+          'lsn.fallback: the receive timestamps of the listener sockets are switched off (SOF_TIMESTAMPING_OPT_RX_FILTER; transmit stamps keep working) and the clock the listeners read is scripted, so that '
+          'requests take the rxt = Now() path with receive times chosen by the harness: equal to / 1 ns around the receive time of an exchange on record (the uniqueness loop runs AT THE LISTENER and the '
+          'transmit-timestamp report must be made for the moved time) or elsewhere in the past, handling time not later than / 1-2 ns after / well after it; non-trivial = a collision at the listener and an interleaved reply. '
+          'tss.era: hook-level histories with the clock at the NTP era rollover 2036-02-07T06:28:16Z (requests received before, handled or reported after it), era-aware order on stamps. '
+          'tss.conc: 8..32 goroutines calling the hook entry points at once on the store filled to 2^20 (each client driven by one goroutine; newcomers evicting / served without state), replies and final items '
+          'compared per client with the model in program order. Thorough: lsn.race = the listeners serving 13 client identities at the same time in a -race build of the child; '
+          'distinct = distinct (kind, input)'),
     assumptions=['all times of one history lie in one NTP era (Time64 comparison wraps at era boundaries; the 2036 rollover is outside the statement)',
                  'code under tssMu is one atomic step (see C07 for the lock discipline)',
                  'time.Time as unbounded nanoseconds; Time.Add exact, Before is <'],
@@ -43,7 +53,7 @@ CONF = dict(
     level_note=('Trusted: Coq kernel, hand-written model validated by the correspondence run, extraction, harness, hook. One NTP era. At the listeners the kernel transmit stamp and the clock reading are not observable: '
                 'that the served transmit stamp is the kernel stamp of THAT reply is checked relationally (between the software transmit time of that exchange and the receive stamp of the '
                 'request that asks for it), not by the property oracle; receive-time collisions cannot be produced through the kernel (hook-level kinds only). No axioms.'),
-    explanation='oracle clauses: reply carries the receive stamp, fresh for the client; basic/interleaved shape; interleaved iff own record with that receive stamp and rx != tx; served transmit stamp later than its receive stamp; reported transmit time recorded, unread one dropped; listener oracle: basic/interleaved shape, interleaved only if an earlier reply to the same client carried the named receive stamp (isolation), served transmit stamp later than it, own receive stamp different; slow link: unread exchange dropped not served, served stamp between the software transmit time of its exchange and the client\'s receipt of that reply',
+    explanation='oracle clauses: reply carries the receive stamp, fresh for the client; basic/interleaved shape; interleaved iff own record with that receive stamp and rx != tx; served transmit stamp later than its receive stamp; reported transmit time recorded, unread one dropped; listener oracle: basic/interleaved shape, interleaved only if an earlier reply to the same client carried the named receive stamp (isolation), served transmit stamp later than it, own receive stamp different; slow link: unread exchange dropped not served, served stamp between the software transmit time of its exchange and the client\'s receipt of that reply; per request also: reported receive time = first free stamp at or after the given one, moved by <= 1 ns per kept exchange; the reply\'s exchange is on record afterwards (unless served without state) and nothing else appeared; report: a given time later than the receive time is handed back unchanged (times compared, not stamps); at the listeners additionally: receive stamp distinct from every earlier one of the client, rx < tx, served stamp <= the client\'s KERNEL receive stamp of that reply, interleaved whenever the most recent exchange of the client (stamp read) is named with rx != tx, receive stamp = scripted clock reading when the kernel gave none',
     timeout_quick=900, timeout_thorough=3000,
     extra_thorough=[dict(cmd='c06race', race=True)],
     no_floor=['lsn.slowlink', 'lsn.fallback'],
